@@ -216,6 +216,8 @@ func NameLabels() []string {
 		"xn--0", "xn--a-", "xn--zz", "XN--E1AFMKFD", "xn--", "host192", "1234",
 		// right-to-left labels, as ACE and as Unicode: a profile with the Bidi rule judges the *other* labels by them
 		"xn--4dbrk0ce", "ישראל",
+		// ACE labels whose decoded form is again an ACE label (conversion is not idempotent on these)
+		"xn--xn--a--", "xn--xn--0-",
 	}
 }
 
